@@ -169,6 +169,64 @@ def run(loader, R, tier):
                             short(p), cname, other, op))
     R.floor("(printer, class) operator comparisons", n2, 12)
 
+    # ---------------------------------------------------------------- R15.5
+    # interval side consistency: the comparison emitted for the lower bound
+    # (" > " / " >= ") is chosen by left_open, the one for the upper bound
+    # (" < " / " <= ") by right_open — under a condition (if or ?:) over the
+    # matching accessor.
+    from selib import sym as _sym
+    SIDE = {" > ": ("get_left_open", True), " >= ": ("get_left_open", False),
+            " < ": ("get_right_open", True), " <= ": ("get_right_open",
+                                                      False)}
+    n5 = 0
+    for c in FAMILY:
+        for f in prog.functions.values():
+            if f.get("cls") != c or not f.get("body") \
+                    or f.get("dependent") or f.get("n") != "bvisit" \
+                    or not f.get("params") \
+                    or strip_type(f["params"][0]["t"]) \
+                    != "SymEngine::Interval":
+                continue
+            pname = f["params"][0]["n"]
+
+            def cb(n, guards, line, f=f):
+                nonlocal n5
+                if not (n.get("k") == "lit" and n.get("t") == "str"
+                        and n.get("v") in SIDE):
+                    return
+                n5 += 1
+                acc, pol_want = SIDE[n["v"]]
+                ok = False
+                seen = []
+                for g in guards:
+                    if g[0] == "case":
+                        continue
+                    cnd, pol = g
+                    t = show(cnd)
+                    if "get_left_open" in t or "get_right_open" in t:
+                        seen.append((t[:40], bool(pol)))
+                    if acc in t and bool(pol) == pol_want \
+                            and not ("get_left_open" in t
+                                     and "get_right_open" in t):
+                        ok = True
+                key = "%s:%s@%s" % (short(f["qn"]), n["v"].strip(),
+                                    n.get("l") or line)
+                R.instance("R15.5", key, sample={"literal": n["v"],
+                                                 "conditions": seen})
+                if not ok:
+                    R.violation(
+                        "R15.5", "%s:%s" % (short(f["qn"]), n["v"].strip()),
+                        prog.loc(f, n.get("l") or line),
+                        "%s emits `%s` under the condition(s) %s; the %s "
+                        "comparison must be selected by %s() == %s" % (
+                            short(f["qn"]), n["v"].strip(), seen or "none",
+                            "lower-bound" if "left" in acc else "upper-bound",
+                            acc, str(pol_want).lower()))
+            _sym.visit_guarded(f["body"], cb)
+    R.rule("R15.5", "interval bound comparisons are selected by the "
+                    "matching open flag")
+    R.floor("interval comparison literals", n5, 4)
+
     # ---------------------------------------------------------------- R15.3
     E = EM.Emit(prog, normalise=EM.norm_paren)
     n3 = 0
